@@ -1,4 +1,6 @@
 """C42 Wallet encryption protects keys (DESIGN §3 C42)."""
+import re
+
 from sa.engine.api import *
 
 UNITS = ["wallet/wallet.cpp", "wallet/scriptpubkeyman.cpp", "wallet/walletdb.cpp"]
@@ -73,6 +75,36 @@ def check(ctx):
     encrypt_wallet(ctx, P)
     spkm_encrypt(ctx, P)
     crypted_key_record(ctx, P)
+    master_key_record(ctx, P)
+
+
+def master_key_record(ctx, P):
+    """A passphrase change re-writes the master-key record under the id it already has: the write must be allowed to replace
+    the existing record (otherwise the change lives in memory only and the replaced passphrase keeps unlocking the file)."""
+    wm = ctx.used(P.fn("wallet::WalletBatch::WriteMasterKey"))
+    ex = [e for e in exits(wm, P) if e.kind == "ret"]
+    ok = False
+    det = None
+    if len(ex) == 1 and is_expr(ex[0].value):
+        calls = [x for x in subexprs(ex[0].value) if (callee(x) or "").endswith("WalletBatch::WriteIC")]
+        if len(calls) == 1:
+            a = [undefarg(x) for x in call_args(calls[0])]
+            det = [show(x) for x in a]
+            ok = len(a) >= 3 and match(["bool", True], a[2]) and contains(["param", wm.params[1]["n"]], a[1]) and "MASTER_KEY" in show(a[0]) and contains(["param", wm.params[0]["n"]], a[0])
+    ctx.ob("WriteMasterKey/overwrites", "PROVENANCE", "WriteMasterKey stores (MASTER_KEY, id) -> the given master key with overwriting enabled, and returns the write's result",
+           ok, wm.where, det)
+    cw = ctx.used(P.fn("wallet::CWallet::ChangeWalletPassphrase"))
+    ws = sites(cw, call_to("wallet::WalletBatch::WriteMasterKey"), P)
+    ctx.floor("ChangeWalletPassphrase master-key writes", len(ws), 1)
+    for s_ in ws:
+        a = call_args(s_.expr)
+        loops = [loop_range_key(l, naming(cw, P)) for l in s_.loops]
+        csub = naming(cw, P)
+        k0, k1 = F.key(F.expand(a[0], csub)), F.key(F.expand(a[1], csub))
+        ok = any("mapMasterKeys" in k for k in loops) and re.search(r"(bind0\(each\(mapMasterKeys\)\)|each\(mapMasterKeys\)\.first)", k0) is not None and \
+            re.search(r"(bind1\(each\(mapMasterKeys\)\)|each\(mapMasterKeys\)\.second)", k1) is not None
+        ctx.ob("ChangeWalletPassphrase/rewrites-same-id@L%s" % s_.line, "PROVENANCE", "a passphrase change writes the re-encrypted master key back under the id of the entry it "
+               "decrypted", ok, s_.where, {"args": [show(x) for x in a], "loops": loops})
 
 
 # ------------------------------------------------------------------------------------------------
@@ -84,9 +116,14 @@ def encrypt_wallet(ctx, P):
     encs = sites(f, enc, P)
     ctx.floor("EncryptWallet -> spk_man->Encrypt", len(encs), 1)
     # one batch object
-    batches = {show(call_obj(s.expr)) for s in sites(f, lambda e: begin(e) or wmk(e) or abort(e) or commit(e), P)} | {show(call_args(s.expr)[1]) for s in encs if len(call_args(s.expr)) == 2}
+    def batch_of(e):
+        # raw pointer, smart pointer (`p.get()`, `*p`, `&*p`) and reference spellings denote the same object
+        while is_expr(e) and ((e[0] == "mcall" and e[1].endswith("::get") and len(e) == 3) or (e[0] == "u" and e[1] in ("*", "&")) or (e[0] in ("cast", "ctor") and len(e) == 3)):
+            e = e[2]
+        return show(e)
+    batches = {batch_of(call_obj(s.expr)) for s in sites(f, lambda e: begin(e) or wmk(e) or abort(e) or commit(e), P)} | {batch_of(call_args(s.expr)[1]) for s in encs if len(call_args(s.expr)) == 2}
     bl = [st for st in stmts(f.body) if st.get("k") == "decl" and st.get("n") in batches]
-    ok = len(batches) == 1 and len(bl) == 1 and (bl[0].get("ty", "").startswith("wallet::WalletBatch")) and not [v for _, v in local_values(f, bl[0]["n"])[1:] if not match(["null"], v)]
+    ok = len(batches) == 1 and len(bl) == 1 and ("WalletBatch" in bl[0].get("ty", "")) and not [v for _, v in local_values(f, bl[0]["n"])[1:] if not match(["null"], v)]
     ctx.ob("EncryptWallet/one-batch", "PROVENANCE", "TxnBegin, WriteMasterKey, every Encrypt, TxnAbort and TxnCommit all operate on the same WalletBatch object", ok, f.where,
            {"batch_expressions": sorted(batches)})
 
@@ -122,14 +159,16 @@ def encrypt_wallet(ctx, P):
     # loop completeness + commit after the loop
     for s in encs:
         lp = s.loops[-1] if s.loops else None
+        # (a `continue` after the call - e.g. `if (Encrypt(..)) continue;` - skips nothing; one before it would)
         ok = lp is not None and lp.get("k") == "foreach" and match([".", ["this"], W + "m_spk_managers"], lp.get("range")) and not has_break(lp.get("b")) and \
-            not [x for x in stmts(lp.get("b")) if x.get("k") == "continue"]
+            not [x for x in stmts(lp.get("b")) if x.get("k") == "continue" and (x.get("l") or 0) < s.line]
         inner = [g for g in s.guards if g.kind in ("if", "sc", "case") and g.line >= (lp.get("l") if lp else 0)]
         a = call_args(s.expr)
         elem_ok = False
         if lp is not None and match(["local", ANY], call_obj(s.expr)):
+            names = {lp["var"].get("n")} | set(lp["var"].get("binds") or [])
             d = [x for x in stmts(lp.get("b")) if x.get("k") == "decl" and x.get("n") == call_obj(s.expr)[1]]
-            elem_ok = len(d) == 1 and contains(["local", lp["var"].get("n")], d[0].get("i"))
+            elem_ok = call_obj(s.expr)[1] in names or (len(d) == 1 and any(contains(["local", n], d[0].get("i")) for n in names if n))
         ctx.ob("EncryptWallet/all-managers@L%s" % s.line, "LOOP", "Encrypt is called unconditionally for every element of m_spk_managers (complete range-for, no break/continue)",
                bool(ok and not inner and elem_ok), s.where)
         for c in sites(f, commit, P):
@@ -148,15 +187,13 @@ def encrypt_wallet(ctx, P):
     bad = [st.get("l") for state, st in may.exits if "encrypt-failed" in state and st.get("k") == "ret" and match(["bool", True], st.get("v"))]
     ctx.ob("EncryptWallet/failure-not-success", "ORDER", "no path with a failed Encrypt returns true", not bad, f.where)
     # the failure branch reaches TxnAbort
-    # statement-level check: the if testing Encrypt: its failure branch contains TxnAbort and always exits
-    okf = False
-    for st in stmts(f.body):
-        if st.get("k") == "if" and any(enc(x) for x in subexprs(st.get("c"))):
-            neg = match(["u", "!", enc], st.get("c"))
-            fail = st.get("t") if neg else st.get("e")
-            if fail is not None and _never_completes(fail) and any(abort(x) for _, e in all_exprs(fail) for x in subexprs(e)):
-                okf = True
-    ctx.ob("EncryptWallet/failure-aborts", "ORDER", "the branch taken when Encrypt fails calls TxnAbort and never falls through (returns, throws or asserts)", okf, f.where)
+    # a failed Encrypt is followed by TxnAbort before the function is left: label set on the false edge of Encrypt, cleared by TxnAbort
+    un = MayFlow(f, P, branch_marks=[("failed-unaborted", enc, False)], kills=[("failed-unaborted", abort)])
+    un.watch = abort
+    un.run()
+    bad = sorted({st.get("l") for state, st in un.exits if "failed-unaborted" in state})
+    ctx.ob("EncryptWallet/failure-aborts", "ORDER", "on every path on which an Encrypt failed, TxnAbort is called before the function returns", not bad and bool(un.events), f.where,
+           {"exits_without_abort": bad} if bad else None)
 
 
 # ------------------------------------------------------------------------------------------------
@@ -181,7 +218,8 @@ def spkm_encrypt(ctx, P):
         # plaintext derives from the loop element; output is a distinct local
         sub = naming(f, P)
         src = F.expand(a[1], {k: v for k, v in _all_single_defs(f).items()}) if len(a) == 4 else None
-        ok = len(a) == 4 and match(mk, a[0]) and lp is not None and contains(["local", lp["var"].get("n")], src) and match(["local", ANY], a[3]) and not match(a[1], a[3])
+        lnames = ({lp["var"].get("n")} | set(lp["var"].get("binds") or [])) - {None} if lp is not None else set()
+        ok = len(a) == 4 and match(mk, a[0]) and any(contains(["local", n], src) for n in lnames) and match(["local", ANY], a[3]) and not match(a[1], a[3])
         ctx.ob("SPKM::Encrypt/secret-is-key@L%s" % s.line, "PROVENANCE", "the plaintext given to EncryptSecret is the loop element's key and it is encrypted with the wallet master key "
                "into a separate output buffer", bool(ok), s.where, {"args": [show(x) for x in a]})
     mf = MustFlow(f, P, marks=[("cleared", is_clear)], branch_marks=[("secret-encrypted", is_es, True)])
@@ -242,8 +280,10 @@ def crypted_key_record(ctx, P):
     er = sites(f, _m(B + "EraseIC"), P)
     ctx.floor("WriteCryptedDescriptorKey WriteIC", len(wr), 1)
 
+    defs = _all_single_defs(f)
+
     def rec(e):
-        k = call_args(e)[0]
+        k = F.expand(call_args(e)[0], defs)
         g = [x for x in subexprs(k) if x[0] == "global"]
         rest = [show(x) for x in subexprs(k) if x[0] == "param"]
         return (g[0][1] if len(g) == 1 else None), rest
